@@ -59,6 +59,34 @@ def join_guards(ctx, rule):
                          {"witness": "title 'cat', query 'ca t' (one-letter tail) is no longer found"})
         if not found:
             ctx.fail(rule, "join-guard-missing:%s" % b.id, b.where(), "length guard of the join branch not recognised (fail closed)")
+        # no other test stands between the entry of the branch and the matcher: besides the length guard only the `?` exits
+        # (no next word / word_match found nothing) and the "next word already taken" test may give the attempt up
+        extra = []
+        for gbi, t in b.iter_terms():
+            bt = U.bool_switch_targets(t)
+            if not bt or b.blocks[gbi]["cleanup"]:
+                continue
+            to_true = U.branch_reaches(cfg, gbi, bt[1], wm)
+            to_false = U.branch_reaches(cfg, gbi, bt[0], wm)
+            if to_true == to_false:
+                continue                    # does not decide whether the matcher is reached
+            e = S.strip_refs(sy.operand(t["discr"]))
+            while e[0] == "unop" and str(e[1]).lower() == "not":
+                e = S.strip_refs(e[2])
+            if e[0] == "discr":
+                continue                    # Option / Try discriminant of a `?`
+            if e[0] == "call" and e[1].endswith(("Option::is_some", "Option::is_none")):
+                continue                    # the neighbouring word is already matched
+            if e[0] == "binop" and e[1] in ("Lt", "Le", "Gt", "Ge") and any(
+                    isinstance(y, tuple) and y and y[0] == "call" and y[1].endswith("Word::dist") for y in S.walk(e)):
+                continue                    # the length guard (its threshold is checked above)
+            extra.append((gbi, e))
+        key = "join-no-extra-guard:%s" % b.id.rsplit("::", 1)[-1]
+        if extra:
+            ctx.fail(rule, key, where(b, extra[0][0]), "the join branch gives up under an additional test `%s` before calling the matcher"
+                     % S.show(extra[0][1], b)[:90], {"witness": "'d vd' no longer finds 'dvd' (a three-letter word spelled as two)"})
+        else:
+            ctx.ok(rule, key, b.where(), "only the length guard, the `?` exits and the already-matched test precede the matcher")
     ctx.floor(rule, "join_guards", n, 2)
 
 
